@@ -56,6 +56,12 @@ def gen_curve(rng):
     else:
         disp = [rng.uniform(-3, 3) * s, rng.uniform(-3, 3) * s, rng.uniform(-3, 3)]
         init = [rng.uniform(-1, 1) * s, rng.uniform(-1, 1) * s, rng.uniform(-1, 1)]
+    if basin and deep and rng.random() < 0.25:
+        # a pure shift along an axis, exact zeros elsewhere: the points of the edges (faces) parallel to it stay exactly on them
+        f = FEATURE[kind] * s
+        disp = [0.0, 0.0, 0.0]
+        disp[rng.randrange(2)] = rng.choice([-1, 1]) * rng.choice([0.001, 0.005, 0.012]) * f
+        init = [0.0, 0.0, 0.0]
     c = {"k": "c07.curve", "ref": ref, "fs": fs, "disp": disp, "init": init, "basin": basin, "deep": basin and deep, "kind": kind, "size": s}
     if rng.random() < 0.4:      # the scanned points sit far from the reference frame; the guess undoes that, so it is as close to the answer as before
         c["pre"] = [rng.uniform(-100, 100) * s, rng.uniform(-100, 100) * s, rng.uniform(-3, 3)]
@@ -128,9 +134,18 @@ def gen_mesh(rng):
     else:
         disp = [rng.uniform(-3, 3) * s for _ in range(3)] + aa(3.0)
         init = [rng.uniform(-1, 1) * s for _ in range(3)] + aa(1.0)
+    axis = basin and deep and rng.random() < 0.25
+    if axis:
+        # a pure shift along an axis (see gen_curve)
+        f = FEATURE[kind] * s
+        disp = [0.0] * 6
+        disp[rng.randrange(3)] = rng.choice([-1, 1]) * rng.choice([0.001, 0.005, 0.01]) * f
+        init = [0.0] * 6
     c = {"k": "c07.mesh", "verts": verts, "faces": faces, "samples": samples, "disp": disp, "init": init, "mode": rng.choice(["point", "plane"]),
          "basin": basin, "deep": basin and deep, "kind": kind, "size": s, "timeout_ms": 60000}
     r = rng.random()
+    if axis:
+        return c
     if r < 0.4:
         c["pre"] = [rng.uniform(-100, 100) * s for _ in range(3)] + aa(3.0)
     elif r < 0.55 and basin:
@@ -138,6 +153,11 @@ def gen_mesh(rng):
         # the conversion to rotation-centred parameters
         c["pre_inv_euler"] = [rng.uniform(-3, 3) * s for _ in range(3)] + [rng.uniform(-3, 3), rng.choice([-1, 1]) * math.pi / 2, rng.uniform(-3, 3)]
         c["init"] = [0.0] * 6
+    elif r < 0.7:
+        # a stored result used as the next starting guess: the guess is exactly the answer (and is not the identity)
+        c["init_exact"] = True
+        c["basin"] = True
+        c["deep"] = True
     return c
 
 
